@@ -30,7 +30,7 @@ def locals_prog(m, d):
 
 
 def loop_prog(k, body):
-    return (f"fn f(a: int) -> int {{ a + 1 }}\nfn main() {{ let s = 0; let l = [1, 2, 3]; let i = 0;\n"
+    return (f"fn f(a: int) -> int {{ a + 1 }}\nfn g(a: int) -> int {{ if a < 0 {{ throw(\"neg\"); }}; 1 + f(a) }}\nfn main() {{ let s = 0; let l = [1, 2, 3]; let i = 0;\n"
             f"  while i < {k} {{ i += 1; {body} }}\n  println(s, i); }}\n")
 
 
@@ -42,6 +42,10 @@ LOOP_BODIES = [
     "let t = match i % 3 { 0 => 1, 1 => 2, _ => 3 }; s += t;",
     "let o = new { a: i, b: \"x\" }; s += o.a;",
     "if i > 1000000 { break; }; s ^= i;",
+    # exceptions raised under pending operands, caught in the same activation and in a caller
+    "try { s = s + 2 * { throw(\"t\"); 1 }; } catch e { s += 2; };",
+    "try { let q = [1]; q.pop(); s = s + f(3 - q.pop().unwrap()); } catch e { s += 1; };",
+    "try { s += g(i) + g(0 - i); } catch e { s += 3; };",
 ]
 
 
@@ -63,6 +67,7 @@ def cases(ctx):
     for k in ([300, 5000] + ([50000] if thorough else [])):
         for body in LOOP_BODIES:
             out.append(("loop", (100, 500, 10000), loop_prog(k, body), {"iterations": k}))
+            out.append(("loop", (12, 40, 64), loop_prog(k, body), {"iterations": k, "tight": 1}))
     # long soak on the real backends only (the Lean models are not run on these)
     for body in LOOP_BODIES:
         out.append(("soak", (100, 500, 10001), loop_prog(1000000 if thorough else 200000, body), {"iterations": 1000000 if thorough else 200000}))
